@@ -31,11 +31,62 @@ def run(ctx):
     ctx.need("Compile" in units, "Compile arm")
     region = main.reachable(units["Compile"])
 
-    # ------------------------------------------------------------------ R1
-    ctx.rule("C06.R1", "one byte order: writer to_be_bytes, loader from_be_bytes([b0, b1]) over chunks of 2", floor=4)
     conv_w = [(b, t, c) for b, t, c in main.calls() if b in region and c and re.search(r"<impl u16>::to_(be|le|ne)_bytes$", c)]
+
+    def origin_staged():
+        """the origin is the first element of the staged word vector: one push of `orig or default` outside every loop, in front of the
+        loop that pushes one emitted word per statement, and ONE loop over the whole vector converts and writes each element.
+        Returns the header of that drain loop, else None."""
+        lps_ = kit.loops(main)
+        if len(conv_w) != 1:
+            return None
+        cb = conv_w[0][0]
+        hdrs = [hh for hh, (body, l) in lps_.items() if cb in body and main.term(hh)["k"] == "call" and (callee_of(main.term(hh)) or "").endswith("::next")
+                and re.search(r"vec::into_iter::IntoIter<u16>|slice::iter::Iter<'?\w*,? ?u16>", (main.term(hh).get("arg_tys") or [""])[0])
+                and not re.search(r"adapters::", (main.term(hh).get("arg_tys") or [""])[0])]
+        if len(hdrs) != 1:
+            return None
+        hh = hdrs[0]
+        src = main.expr(main.term(hh)["args"][0], 8, stop={"named"})
+        for x in list(expr_walk(src)):
+            if x[0] == "local" and "IntoIter<u16>" in main.local_ty(x[1]) or x[0] == "local" and "Iter<" in main.local_ty(x[1]):
+                sd_ = main.single_def(x[1])                             # the `for` desugaring names its iterator: look at what it iterates
+                if sd_ and sd_[0] == "stmt":
+                    src = main.rvalue_expr(sd_[3]["r"], 6, stop={"named"})
+                elif sd_ and sd_[0] == "call":
+                    src = ("call", callee_of(sd_[3]), tuple(main.expr(a_, 6, stop={"named"}) for a_ in sd_[3]["args"]))
+        vecs = {x[1] for x in expr_walk(src) if x[0] == "local" and "Vec<u16>" in main.local_ty(x[1])}
+        if len(vecs) != 1:
+            return None
+        v = vecs.pop()
+        pushes = []
+        for b_, t_, c_ in main.calls():
+            if b_ in region and c_ and re.search(r"Vec::<T, A>::(push|insert|extend_from_slice|append|extend|remove|pop|truncate|clear|swap_remove|retain)$", c_):
+                tgt = main.expr(t_["args"][0], 4, stop={"named"})
+                if any(x[0] == "local" and x[1] == v for x in expr_walk(tgt)):
+                    pushes.append((b_, t_, c_))
+        if len(pushes) != 2 or not all(c_.endswith("::push") for b_, t_, c_ in pushes):
+            return None
+        outside = [(b_, t_) for b_, t_, c_ in pushes if not any(b_ in body for h_, (body, l) in lps_.items())]
+        inside = [(b_, t_) for b_, t_, c_ in pushes if any(b_ in body for h_, (body, l) in lps_.items())]
+        if len(outside) != 1 or len(inside) != 1:
+            return None
+        ob, ot = outside[0]
+        ib, it = inside[0]
+        oe = expr_str(main.expr(ot["args"][1], 12), 300)
+        ie = expr_str(main.expr(it["args"][1], 12), 300)
+        if "orig(" not in oe or "emit(" not in ie:
+            return None
+        emit_loop = [h_ for h_, (body, l) in lps_.items() if ib in body]
+        if not all(main.dominates(ob, h_) for h_ in emit_loop) or not main.dominates(ob, hh) or ib in lps_[hh][0]:
+            return None
+        return hh
+    staged_origin = origin_staged()
+
+    # ------------------------------------------------------------------ R1
+    ctx.rule("C06.R1", "one byte order: writer to_be_bytes, loader from_be_bytes([b0, b1]) over chunks of 2", floor=3)
     ctx.instance(len(conv_w))
-    ok = len(conv_w) >= 2 and all(c.endswith("to_be_bytes") for b, t, c in conv_w)
+    ok = (len(conv_w) >= 2 or staged_origin is not None) and all(c.endswith("to_be_bytes") for b, t, c in conv_w)
     ctx.oblig(ok, {"writer conversions": [short(c).rsplit("::", 1)[-1] for b, t, c in conv_w]}, "to_be_bytes only")
     if not ok:
         ctx.violation("writer-endianness", sp_file_line(main.term(units["Compile"]).get("sp")), "compile converts words with %s (expected to_be_bytes for the origin and every word)" % [short(c).rsplit("::", 1)[-1] for b, t, c in conv_w])
@@ -165,7 +216,9 @@ def run(ctx):
         in_loop = [closure_loop]
         h = [closure_loop]
     ok = len(in_loop) == 1 and len(once) in (1, 2) and bool(h)
-    if ok and closure_loop is not None:
+    if staged_origin is not None and len(in_loop) == 1 and not once and in_loop[0] in lps[staged_origin][0]:
+        ok = True            # the origin travels as element 0 of the staged vector (origin_staged above): one conversion per element, origin first
+    elif ok and closure_loop is not None:
         hb = closure_loop
         if len(once) == 2:
             a, b2 = once
@@ -338,6 +391,22 @@ def run(ctx):
     for b, t in diverting(tf, goal_tf):
         e = tf.expr(t["a"], 10)
         ok_ = e[0] == "discr" and has_call(e, lambda c: c.endswith("Try>::branch")) and has_call(e, lambda c: c.endswith("AsmLine::emit"))
+        if not ok_ and e[0] == "discr" and has_call(e, lambda c: c.endswith("Try>::branch")) and has_call(e, lambda c: re.search(r"Iterator>?::collect$", c) is not None):
+            # `once(Ok(orig)).chain(statements.map(|s| s.emit())).collect::<Result<_>>()?`: the only Err an element can carry is emit's
+            e2 = tf.expr(t["a"], 16)
+            cl_ok, other_err = False, False
+            for x in expr_walk(e2):
+                if x[0] == "agg" and x[1][0] == "closure" and x[1][1] in prog.fns:
+                    g_ = prog.fns[x[1][1]]
+                    if [c2 for b2, t2, c2 in g_.calls()] == ["lace::air::AsmLine::emit"]:
+                        cl_ok = True
+                    else:
+                        other_err = True
+                if x[0] == "call" and str(x[1]).endswith("sources::once::once"):
+                    a0 = kit.strip_refs(x[2][0]) if x[2] else ("unknown",)
+                    if not (a0[0] == "agg" and a0[1][0] == "adt" and a0[1][2] == "Ok"):
+                        other_err = True
+            ok_ = cl_ok and not other_err
         ctx.instance(1)
         ctx.oblig(ok_, None)
         if not ok_:
